@@ -23,8 +23,16 @@ CFG = dict(
               "families, tx==rx, extended message / 4-octet AS / extended next hop / family / add-path direction in "
               "force iff both advertised it; negotiate_gr / negotiate_llgr family sets equal at both ends and in force "
               "iff both advertised; the FSM's effective send-max only where negotiate put add-path send in force",
+              "concurrent: real gRPC configuration calls (Disable/Enable/Delete/Add/replace, delete/add/move dynamic "
+              "prefix) race with accept_connection (multi-thread runtime; both queued behind a holder of the global "
+              "lock, or free-running); at quiescence: an admin-down neighbour owns no registered connection that was "
+              "never told to shut down, a session of a deleted / replaced neighbour was told to shut down and ends, an "
+              "accepted session carries the parameters of one of the configurations that existed, refused => zero bytes",
               "no panic in accept_connection / PeerSession::run / negotiate / OPEN codec"],
-    assumptions=["judged at quiescence: after disconnect / disable / delete the harness waits for the session tasks to "
+    assumptions=["concurrent part: the overlap is produced by holding the global tokio RwLock from the harness while the "
+                 "accept and the configuration call queue up (what any other handler does), no hook inside "
+                 "accept_connection; overlaps are counted by sequence numbers taken at call start / return",
+                 "judged at quiescence: after disconnect / disable / delete the harness waits for the session tasks to "
                  "finish (by task completion, 20 s watchdog = inconclusive); the one non-quiescent step is 'delete + "
                  "re-add while a connection is alive', after which only a duplicate-direction probe is judged",
                  "a configured neighbour that is down / already connected but also lies inside a dynamic prefix, a second "
@@ -61,11 +69,19 @@ CFG = dict(
                          "inforce:family": 240000, "inforce:addpath-direction": 29000,
                          "inforce:extended-message": 49000, "inforce:four-octet-as": 97000,
                          "inforce:extended-nexthop": 1300, "one-sided:extended-nexthop": 13000,
-                         "shape:invalid-addpath-mode": 40000}),
-    quick=[e2("accept", "event::verif::c16::run", 4, 40),
+                         "shape:invalid-addpath-mode": 40000,
+                         "conc:rounds": 560, "conc:overlapping-pairs": 450,
+                         "conc:overlapping-pairs:behind-lock-holder": 450,
+                         "conc:judged:session-of-admin-down-neighbour": 90,
+                         "conc:judged:session-of-removed-neighbour": 110, "conc:judged:session-may-live": 190,
+                         "conc:judged:setup": 190, "conc:closed-session-ended": 200,
+                         "conc:kind:Disable": 140, "conc:kind:Delete": 80, "conc:kind:Replace": 80}),
+    quick=[e2("accept", "event::verif::c16::run", 4, 40, part="seq"),
+           e2("conc", "event::verif::c16::run", 2, 40, part="concurrent"),
            e1("mirror", "c16", "debug", 1, 30),
            e1("mirror", "c16", "release", 1, 30)],
-    thorough=[e2("accept", "event::verif::c16::run", 16, 240),
+    thorough=[e2("accept", "event::verif::c16::run", 16, 400, part="seq"),
+              e2("conc", "event::verif::c16::run", 4, 200, part="concurrent"),
               e1("mirror", "c16", "debug", 4, 200),
               e1("mirror", "c16", "release", 4, 200)],
 )
